@@ -50,8 +50,8 @@
      (observed on the real code under machine load)
 
    Not modelled: cancellation of the caller's own context; RPC errors other than
-   "lease not found" and the lost tryAcquire reply (the trace acceptor does not
-   replay LAcqLost: the harness repeats runs during which the server stalled). *)
+   "lease not found" (the lost tryAcquire reply is modelled: LAcqLost, and the trace
+   acceptor tries it as an alternative to LAcq when the call is going to fail). *)
 From Coq Require Import List Bool ZArith Arith.
 From Verif Require Import Base.KV Locks.Interleave Locks.LockLog.
 Import ListNotations.
@@ -351,6 +351,21 @@ Definition try_mut (a : acc) (m : mut) (l : list cev) : option acc :=
           | Some s' => if bumped s s' then Some (mkAcc s' (a_lose a) (a_in a)) else None
           | None => None
           end
+      | Some (Failed _) =>
+          (* a key left behind by a lost tryAcquire reply disappears when the caller's
+             clean-up Unlock (not logged) closes the session: LExit, LUnlockTxn (no-op),
+             LClose (revoke); only after the failure has been reported *)
+          if fails_next i l then None else
+          match step s (LExit i) with
+          | Some s1 => match step s1 (LUnlockTxn i) with
+                       | Some s2 => match step s2 (LClose i) with
+                                    | Some s' => if bumped s s' then Some (mkAcc s' (a_lose a) (a_in a)) else None
+                                    | None => None
+                                    end
+                       | None => None
+                       end
+          | None => None
+          end
       | Some Waiting | Some Verify | Some Held =>
           if existsb (Nat.eqb i) (a_lose a) then
             match step s (LRevoke (lease_at s i)) with
@@ -372,6 +387,25 @@ Definition try_mut (a : acc) (m : mut) (l : list cev) : option acc :=
             end
       | _ => None
       end
+  end.
+
+(* the alternative for a put whose reply is lost (the deadline fired inside the RPC
+   after the server applied the txn): the call fails at once, the key stays *)
+Definition try_mut_lost (a : acc) (m : mut) (l : list cev) : option acc :=
+  let s := a_sys a in
+  match m with
+  | MPut i =>
+      match pc_at s i with
+      | Some (Called _) =>
+          if fails_next i l then
+            match step s (LAcqLost i) with
+            | Some s' => if bumped s s' then Some (mkAcc s' (a_lose a) (a_in a)) else None
+            | None => None
+            end
+          else None
+      | _ => None
+      end
+  | MDel _ => None
   end.
 
 Definition opt_bind {A B} (o : option A) (f : A -> option B) : option B :=
@@ -443,7 +477,9 @@ Fixpoint accept (fuel : nat) (a : acc) (muts : list mut) (l : list cev) : bool :
       match muts with
       | m :: muts' =>
           match try_mut a m l with
-          | Some a' => accept f a' muts' l
+          | Some a' =>
+              accept f a' muts' l
+              || match try_mut_lost a m l with Some a2 => accept f a2 muts' l | None => false end
           | None =>
               match l with
               | e :: l' => match do_ev a e with Some a' => accept f a' muts l' | None => false end
